@@ -76,6 +76,7 @@ func main() {
 			}
 			if f[0] == "reset" {
 				if b := bkOf(st); b != nil {
+					b.releaseAll()
 					for _, c := range b.conns {
 						c.c.Close()
 					}
